@@ -15,17 +15,18 @@ import (
 // ---- C08: spec/Signature.tla ----
 
 type sigCfg struct {
-	Style    string `json:"style"`
-	Recv     bool   `json:"recv"`
-	Reverse  bool   `json:"reverse"`
-	SrcPtr   bool   `json:"srcPtr"`
-	DstPtr   bool   `json:"dstPtr"`
-	RetErr   bool   `json:"retErr"`
-	Nargs    int    `json:"nargs"`
-	Named    bool   `json:"named"`
-	NamedRes bool   `json:"namedRes"`
-	Imp      string `json:"imp"`
-	Pkg      string `json:"pkg"`
+	Style     string `json:"style"`
+	Recv      bool   `json:"recv"`
+	Reverse   bool   `json:"reverse"`
+	SrcPtr    bool   `json:"srcPtr"`
+	DstPtr    bool   `json:"dstPtr"`
+	RetErr    bool   `json:"retErr"`
+	Nargs     int    `json:"nargs"`
+	Named     bool   `json:"named"`
+	NamedRes  bool   `json:"namedRes"`
+	RecvBlank bool   `json:"recvBlank"`
+	Imp       string `json:"imp"`
+	Pkg       string `json:"pkg"`
 }
 type sigImport struct {
 	Path     string `json:"path"`
@@ -147,7 +148,11 @@ func sigConcretise(k int, s *sigCase) *b1.Case {
 		notes = append(notes, ":style arg")
 	}
 	if c.Recv {
-		notes = append(notes, ":recv rc")
+		if c.RecvBlank {
+			notes = append(notes, ":recv _")
+		} else {
+			notes = append(notes, ":recv r_c")
+		}
 	}
 	if c.Reverse {
 		notes = append(notes, ":reverse")
@@ -183,6 +188,9 @@ func sigDescribe(s *sigCase) string {
 	}
 	if c.NamedRes {
 		f = append(f, "named-results")
+	}
+	if c.RecvBlank {
+		f = append(f, "receiver-name=_")
 	}
 	f = append(f, "imported="+c.Imp)
 	if c.Imp != "none" {
@@ -421,7 +429,7 @@ func hookConcretise(k int, h *hookCase) *b1.Case {
 		Fit any     `json:"fit"`
 	}{h.Cfg, h.Fit})
 	c := h.Cfg
-	imported := c.Kind == "imported" || c.Kind == "importedUnexported"
+	imported := c.Kind == "imported" || c.Kind == "importedUnexported" || c.Kind == "importedBlank"
 	srcBase, dstBase := fmt.Sprintf("HS%d", k), fmt.Sprintf("HD%d", k)
 	var d strings.Builder
 	if imported {
@@ -444,6 +452,10 @@ func hookConcretise(k int, h *hookCase) *b1.Case {
 	ret, body := "", "{}"
 	if c.HErr {
 		ret, body = " error", "{ return nil }"
+		// every other error-returning hook names its result, as generated functions themselves do
+		if hashMod(string(js), 19, 2) == 0 {
+			ret = " (err error)"
+		}
 	}
 	hd, hs := star(c.HDstPtr, dstBase), star(c.HSrcPtr, srcBase)
 	switch c.Kind {
@@ -453,6 +465,8 @@ func hookConcretise(k int, h *hookCase) *b1.Case {
 		fmt.Fprintf(&d, "var %s = func(d %s, s %s%s)%s %s\n", hname, hd, hs, extra, ret, body)
 	case "imported":
 		hname = "ext.Hook" + pv(c.HDstPtr) + pv(c.HSrcPtr) + map[bool]string{true: "E", false: "N"}[c.HErr] + map[bool]string{true: "X", false: "N"}[c.HExtra == "all"]
+	case "importedBlank":
+		hname = "hk.Hook" + pv(c.HDstPtr) + pv(c.HSrcPtr) + map[bool]string{true: "E", false: "N"}[c.HErr] + map[bool]string{true: "X", false: "N"}[c.HExtra == "all"]
 	case "importedUnexported":
 		hname = "ext.hookPP"
 	case "arity0":
@@ -467,6 +481,8 @@ func hookConcretise(k int, h *hookCase) *b1.Case {
 		fmt.Fprintf(&d, "func %s(d %s, s %s) (int, error) { return 0, nil }\n", hname, hd, hs)
 	case "nonErrResult":
 		fmt.Fprintf(&d, "func %s(d %s, s %s) int { return 0 }\n", hname, hd, hs)
+	case "errImplResult":
+		fmt.Fprintf(&d, "type HE%d struct{}\n\nfunc (*HE%d) Error() string { return \"e\" }\n\nfunc %s(d %s, s %s) *HE%d { return nil }\n", k, k, hname, hd, hs, k)
 	case "notFunc":
 		fmt.Fprintf(&d, "var %s = 1\n", hname)
 	case "missing":
@@ -523,6 +539,27 @@ func hookConcretise(k int, h *hookCase) *b1.Case {
 	}
 	return &b1.Case{ID: core.HashID(string(js)), JSON: js, Func: fkey, Style: c.Style, Decls: d.String(), Notes: notes,
 		Method: method, Alone: h.Fit.Reject, Data: h}
+}
+
+// hookPkgSrc is the package of the blank-imported hooks: the hook functions of ext over ext's types, in a
+// package that declares the name hk and lives at the path hkp/v2.
+func hookPkgSrc() string {
+	var sb strings.Builder
+	sb.WriteString("package hk\n\nimport \"b1m/ext\"\n\n")
+	for _, l := range strings.Split(universe.ExtSrc, "\n") {
+		if strings.HasPrefix(l, "func Hook") {
+			l = strings.ReplaceAll(l, "*XS", "*ext.XS")
+			l = strings.ReplaceAll(l, " XS", " ext.XS")
+			sb.WriteString(l + "\n")
+		}
+	}
+	return sb.String()
+}
+
+// hookOptions are the run options of the hooks family.
+func hookOptions(name string, compile bool) b1.Options {
+	return b1.Options{Name: name, PerFile: 40, Family: "hooks", Compile: compile,
+		Imports: []b1.ExtPkg{{Path: "hkp/v2", Src: hookPkgSrc()}}}
 }
 
 func hookDescribe(h *hookCase) string {
@@ -643,7 +680,7 @@ func C10(c *core.Ctx) {
 		return
 	}
 	cases := hookCases(c)
-	st := b1.Run(c, b1.Options{Name: "hooks", PerFile: 40, Family: "hooks"}, cases, hookJudge)
+	st := b1.Run(c, hookOptions("hooks", false), cases, hookJudge)
 	// run-time side: executed generated functions, conjunct "hooks" of GenExecTrace
 	gxCommon(c, "GenExecTraceC10.cfg", "C10", true, func(r gxRun) bool {
 		pre, _ := r.begin["pre"].(map[string]any)
